@@ -1032,11 +1032,6 @@ impl ActTask for Arc<Task> {
         // update prev outputs to current task
         let outputs = ctx.task().outputs();
         self.update_data(&outputs);
-        // a task that has already ended gets no further event: its stored row is brought up
-        // to date here (a hook act or a task left open by an error ending finished after it)
-        if self.state().is_completed() {
-            let _ = self.runtime.cache().upsert(self);
-        }
 
         ctx.set_task(self);
 
@@ -1057,6 +1052,13 @@ impl ActTask for Arc<Task> {
             && before_emits == self.emit_count()
         {
             ctx.emit_task(self)?;
+        }
+
+        // the outputs taken over above are part of the task; when this review brought no event
+        // that writes its row (the task waits for other children, or had already ended when a
+        // hook act or a left-over task finished below it), the row is brought up to date here
+        if before_emits == self.emit_count() {
+            let _ = self.runtime.cache().upsert(self);
         }
 
         if is_review {
